@@ -182,11 +182,22 @@ def c03_monitor(ctx, tr, ix):
     prev_close_nav = 1.0
     compounded = 1.0
     day_start_tv = dict((t.upper(), v) for t, v in cfgk["accounts"].items())
+    first_day_init_fut = None
+    if any(it and it.split(":")[0] in ix.fut for it in ((cfgk.get("base_extra") or {}).get("init_positions") or "").split(",")):
+        first_day_init_fut = next((e["cal"].date() for k_, e in tr.events if k_ == "PRE_BEFORE_TRADING"), None)
+    if (cfgk.get("base_extra") or {}).get("init_positions"):
+        # configured starting holdings: an account's starting value is its cash plus the holdings at the previous close = its value at the first observation
+        first = next((e.get("accounts") for k_, e in tr.events if k_ == "PRE_BEFORE_TRADING" and e.get("accounts")), None)
+        if first:
+            for t_, a_ in first.items():
+                if not nan_in(a_):
+                    day_start_tv[t_] = a_["obs"]["total_value"]
     flows = collections.Counter()
     mfee0 = collections.Counter()
     sys_fee = collections.Counter()
     split_gain = collections.Counter()
     reinvested = collections.Counter()
+    units_nan_reported = False
     prev_settle_acc = None
     for kind, e in tr.events:
         if kind == "POST_BEFORE_TRADING" and prev_settle_acc is not None and e.get("accounts"):
@@ -210,6 +221,14 @@ def c03_monitor(ctx, tr, ix):
         pf = e.get("pf") if kind != "CALL" else e.get("pf_after")
         acc = e.get("after") if kind == "CALL" else e.get("accounts")
         when = e.get("when") if kind == "CALL" else e.get("cal")
+        if pf is not None and (pf["units"] != pf["units"] or (pf["nav"] != pf["nav"])) and not units_nan_reported:
+            # the unit bookkeeping broke down (units or unit net value NaN): reported once; nothing that divides by them can be checked afterwards
+            units_nan_reported = True
+            prev_flow = next((c_ for c_ in reversed(tr.calls) if c_["api"] in ("deposit", "withdraw") and c_["when"] <= when), None)
+            ctx.witness("C03.2", {"kind": "units_nan"}, "%s at %s: units %r, unit net value %r (total value %r); last cash flow before: %s"
+                        % (kind, when, pf["units"], pf["nav"], pf["total_value"], None if prev_flow is None else (prev_flow["api"], prev_flow["args"], str(prev_flow["when"]))), rp)
+        if units_nan_reported:
+            continue
         if kind == "CALL":
             if e["api"] in ("deposit", "withdraw") and e["exc"] is None:
                 sign = 1 if e["api"] == "deposit" else -1
@@ -260,6 +279,9 @@ def c03_monitor(ctx, tr, ix):
                         if sys_fee[t] > 0 and abs(dp - (want - sys_fee[t])) <= 1e-4 + 1e-9 * abs(want):
                             ctx.witness("C03.5", {"kind": "daily_pnl_identity", "reinvestment_fee": True},
                                         "%s %s: reported daily P&L %r counts the reinvestment fee %r that was never taken out of cash (change in value net of flows %r)" % (when.date(), t, dp, sys_fee[t], want), rp)
+                        elif t == "FUTURE" and first_day_init_fut and when.date() == first_day_init_fut:
+                            ctx.witness("C03.5", {"kind": "daily_pnl_identity", "init_positions_first_day": True},
+                                        "%s %s: configured starting futures positions: reported daily P&L %r, change in total value net of flows %r" % (when.date(), t, dp, want), rp)
                         else:
                             ctx.witness("C03.5", {"kind": "daily_pnl_identity", "stock_delisting_day": bool(delist_today)},
                                         "%s %s: reported daily P&L %r, change in total value net of flows %r" % (when.date(), t, dp, want), rp)
